@@ -173,6 +173,8 @@ def execute(case):
             elif k == "width":
                 w, n, pos = case["w"], case["n"], case["pos"]
                 kw = {} if pos == "start" and case["fn"] == "direct" else {"position": pos}
+                if case.get("fill", 0) != 0 and (case["fn"] == "adjust" or w > n):
+                    kw["fill_value"] = case["fill"]
                 if case["fn"] == "adjust":
                     res = ops.adjust_dim_width(arr, "x", w, **kw)
                 elif w < n:
